@@ -108,6 +108,25 @@ def Replay (S : List UInt8) : Nat → List SG → Prop
     pos + g.skip.toNat + g.new.length ≤ S.length ∧
     Replay S (pos + g.skip.toNat + g.new.length) rest
 
+/-! ### completeness (C09) -/
+
+/-- Hypotheses of the completeness theorem on one operation: a segment consistent with `S`, `i` that the stream
+    accepts, no page limit configured; RST only at the end of the sender's stream and not together with SYN
+    (an RST in the middle legitimately aborts the direction). -/
+def HOp.Plain (S : List UInt8) (i : Int) : HOp → Prop
+  | .seg p acc _ cfg _ => SegOK S i p ∧ acc = 1 ∧ cfg.maxPer ≤ 0 ∧ cfg.maxTotal ≤ 0 ∧
+      (p.rst = true → p.syn = false ∧ p.dataSeq + p.bytes.length = i + 1 + S.length)
+  | _ => False
+
+def HOp.isSyn : HOp → Bool
+  | .seg p _ _ _ _ => p.syn
+  | _ => false
+
+/-- the operation is a segment whose payload contains the byte with (unbounded) sequence number `x` -/
+def HOp.carries (x : Int) : HOp → Prop
+  | .seg p _ _ _ _ => p.dataSeq ≤ x ∧ x < p.dataSeq + p.bytes.length
+  | _ => False
+
 /-! ### pool level (C11) -/
 
 /-- run a whole history on the pool -/
